@@ -1,5 +1,5 @@
 #!/bin/sh
 # dev helper: extract + verify one unit
 u=$1; shift
-/verif/tools/vx-extract/target/debug/vx-extract /verif/contracts/$u.vc.rs /repo /verif/out/$u.rs /verif/out/$u.extract.json || exit 2
+/verif/tools/vx-extract/target/release/vx-extract /verif/contracts/$u.vc.rs /repo /verif/out/$u.rs /verif/out/$u.extract.json || exit 2
 verus /verif/out/$u.rs --triggers-mode silent --multiple-errors 30 "$@"
